@@ -704,3 +704,24 @@ package leveldb
 //@ func (*session).markFileNum
 //@   trusted
 //@   ensures s.stNextFileNum > num && s.stNextFileNum >= old(s.stNextFileNum)
+
+// ---------------------------------------------------------------------------
+// C20: buffers do not cross the API boundary.
+// A batch record is a copy: the batch does not point into the caller's key / value and does not touch them.
+//@ interface binary.PutUvarint
+//@   params buf []byte, x uint64
+//@   ensures result >= 1 && result <= 10
+//@   modifies buf[:len(buf)]
+//@ func (*Batch).grow
+//@   props C20
+//@   safety off
+//@   requires n >= 0 && n <= 4398046511104 && len(b.data) <= 1099511627776
+//@   ensures [C20:room] cap(b.data) - len(b.data) >= n && len(b.data) == len(old(b.data))
+//@   ensures [C20:own-buffer] sameslice(b.data, old(b.data)) || freshbase(b.data)
+//@   modifies b.data
+//@ func (*Batch).appendRec
+//@   props C20
+//@   safety off
+//@   requires !sameblock(key, b.data) && !sameblock(value, b.data) && len(key) <= 1099511627776 && len(value) <= 1099511627776 && len(b.data) <= 1099511627776
+//@   ensures [C20:arguments-not-retained] !sameblock(b.data, key) && !sameblock(b.data, value)
+//@   ensures [C20:arguments-not-modified] unchanged(key) && unchanged(value)
